@@ -176,6 +176,18 @@ class Builder:
             return lp.Prand(self.items(x['l']), rep(x['r']))
         if t == 'white':
             return vp.Pwhite(x['k'], x['k'] + x['o'], rep(x['r']))
+        if t == 'rout':
+            lo, k, cnt_ = x['k'], x['o'], rep(x['r'])
+
+            def draws():                # a routine function drawing with the library's builtins
+                for _ in bi.counter(cnt_):
+                    yield lo + bi.rand(k)
+            return fu.Prout(draws)
+        if t == 'run':
+            a = b(x['a'])
+            return -a if x['f'] == 'neg' else a + 1
+        if t == 'rif':
+            return fu.Pif(b(x['a']), b(x['b']), b(x['c']))
         if t == 'rseq':
             return lp.Pseq(self.items(x['l']), rep(x['r']))
         if t == 'rtuple':
@@ -216,7 +228,7 @@ def fill_tapes(x, n):
         for q in subexprs(s['p']):
             if q['t'] == 'rand':
                 ks.add(len(q['l']))
-            elif q['t'] == 'white':
+            elif q['t'] in ('white', 'rout'):
                 ks.add(q['o'])
         assert len(ks) == 1, 'one draw kind per Pseed expected'
         k = ks.pop()
